@@ -232,3 +232,28 @@ package measure
 //@   ensures  success-keeps: result1 == nil ==> !fileSnapshotRemoved
 //@   loop 0 invariant tst.snapshot == old(tst.snapshot) && snapshot == tst.snapshot && tst.snapshot.ref == old(tst.snapshot.ref) + 1 && !fileSnapshotRemoved && err == nil && partsOK(snapshot)
 //@   loop 0 invariant samehdr(snapshot.parts, old(tst.snapshot.parts)) && (forall p *partWrapper :: p.ref == old(p.ref)) && (forall k :: 0 <= k && k < len(snapshot.parts) ==> snapshot.parts[k].mp != nil || snapshot.parts[k].p != nil)
+//
+//@ section C08
+// ---- part-level time pruning: every part whose time range meets the query range is selected ----
+//@ spec func partMeets(p *part, lo int64, hi int64) bool = !(hi < p.partMetadata.MinTimestamp || lo > p.partMetadata.MaxTimestamp)
+//@ func snapshot.getParts
+//@   mode int
+//@   requires s != nil && (forall k :: 0 <= k && k < len(s.parts) ==> s.parts[k] != nil && s.parts[k].p != nil)
+//@   modifies dst[len(dst):cap(dst)]
+//@   modifies allof(part.cache)
+//@   ensures  kept: len(result0) >= len(dst) && (forall j :: 0 <= j && j < len(dst) ==> result0[j] == old(dst[j]))
+//@   ensures  only-matching: forall j :: len(dst) <= j && j < len(result0) ==> result0[j] != nil && partMeets(result0[j], minTimestamp, maxTimestamp)
+//@   ensures  counted: result1 == len(result0) - len(dst)
+//@   loop 0 invariant len(dst) == old(len(dst)) + count && count >= 0 && (forall j :: 0 <= j && j < old(len(dst)) ==> dst[j] == old(dst[j]))
+//@   loop 0 invariant only: forall j :: old(len(dst)) <= j && j < len(dst) ==> dst[j] != nil && partMeets(dst[j], minTimestamp, maxTimestamp)
+//
+// BOUNDED stand-in (labelled, not counted as proved): "no matching part is discarded" needs an existential witness per
+// part that the solvers do not find under a loop invariant; checked by complete unrolling for snapshots of at most 3 parts.
+//@ func snapshot.getParts#bounded
+//@   mode int
+//@   opt bounded snapshots of at most 3 parts (loop unrolled completely)
+//@   requires s != nil && len(s.parts) <= 3 && (forall k :: 0 <= k && k < len(s.parts) ==> s.parts[k] != nil && s.parts[k].p != nil)
+//@   modifies dst[len(dst):cap(dst)]
+//@   modifies allof(part.cache)
+//@   loop 0 unroll 3
+//@   ensures  no-matching-part-discarded: forall k :: 0 <= k && k < len(s.parts) && partMeets(s.parts[k].p, minTimestamp, maxTimestamp) ==> (exists j :: len(dst) <= j && j < len(result0) && result0[j] == s.parts[k].p)
